@@ -261,17 +261,32 @@ def eval_cond(c, ty, val, unit, trunc=False):
             return None
         k = frac(c['c'])
         ku = c.get('u')
+        converted = False
         if (ku or None) != (unit or None):
             if not ku or not unit:
                 return None                      # mixing a plain number with a dimensional value: not judged
             k = convert(k, ku, unit)
+            converted = True
             if k is None:
                 return None
         if trunc:
-            k = Fraction(int(k))
+            k = _int_cast(k, converted and trunc == 'low')
         a, b = (k, val) if c.get('flip') else (val, k)
         return num_cmp(op, a, b)
     raise ValueError(e)
+
+
+def _int_cast(k, noise_below):
+    """twin of int(float): truncation towards zero; noise_below: a converted constant that is mathematically integral
+    may arrive as 116.99999999999999 and is then cut to the next integer towards zero"""
+    if noise_below and k.denominator == 1 and k != 0:
+        return k - 1 if k > 0 else k + 1
+    return Fraction(int(k))
+
+
+def twin_truths(c, ty, val, unit):
+    """truth values the recorded int-cast mechanism can produce for this condition"""
+    return {eval_cond(c, ty, val, unit, trunc=True), eval_cond(c, ty, val, unit, trunc='low')}
 
 
 def shape_of(v):
@@ -1002,6 +1017,10 @@ def check_env_constraints(env):
 
 def _int_trunc_explains(cond, sv):
     """twin of the recorded defect: with every constant cast to int in the node's unit the condition holds"""
+    return _int_trunc_explains_mode(cond, sv, False) or _int_trunc_explains_mode(cond, sv, True)
+
+
+def _int_trunc_explains_mode(cond, sv, low):
     try:
         tk = _Tok(cond)
         for i, t in enumerate(tk.toks):
@@ -1014,7 +1033,7 @@ def _int_trunc_explains(cond, sv):
                     x = convert(x, unit, sv[2])
                     if x is None:
                         return False
-                    tk.toks[i] = ('word', str(int(x)))
+                    tk.toks[i] = ('word', str(int(_int_cast(x, low))))
                     tk.toks[i + 1] = ('word', sv[2])
                 else:
                     tk.toks[i] = ('word', str(int(x)))
